@@ -103,6 +103,15 @@ def run(report, p):
                 in_with = isinstance(parent(call), ast.withitem)
                 with_stmt = parent(parent(call)) if in_with else None
                 for rn in reps:
+                    # the publish step runs only when the write completed: not in a `finally:` / `except:` block
+                    x = parent(rn.ast)
+                    prev = rn.ast
+                    in_cleanup = False
+                    while x is not None and x is not f.node:
+                        if isinstance(x, ast.Try) and (any(prev is h for h in x.handlers) or any(prev is st_ for st_ in x.finalbody)):
+                            in_cleanup = True
+                        prev, x = x, parent(x)
+                    r1.check(not in_cleanup, f, rn.ast, "os.replace sits in a finally / except block: when writing fails half way (an exception, not only a kill) the truncated temporary is still moved over the final name", construct="publish in cleanup block")
                     inside_with = with_stmt is not None and _inside(rn.ast, with_stmt)
                     ok_close = (in_with and not inside_with) or any(g.dominates(cn, rn) for cn in closes)
                     r1.check(ok_close, f, rn.ast, "os.replace publishes the file before it is closed (its content can still sit in the write buffer: a kill right after the rename leaves an empty or partial file under the final name)", construct="replace before close")
@@ -175,6 +184,20 @@ def run(report, p):
             r4.check(ok, lf, call, f"the loader parses directory entries as manifests without requiring the name to end with {ext!r}: a temporary file left by an interrupted run is parsed and the load aborts on it", construct="manifest parse not guarded by the extension test")
     if n_parse == 0:
         raise AnalysisError("loader: no manifest parse of a listed directory entry found")
+    # the window between publishing the manifest and rewriting the chain is survivable: the loader must accept a manifest that the chain
+    # does not list yet - i.e. nothing in the loop over the folder's entries raises
+    for lf in lfuncs:
+        for lp in [n for n in walk_no_nested(lf.node) if isinstance(n, ast.For)]:
+            listed = False
+            try:
+                listed = any(any(s2[0] == "call" and s2[1] in ("ext:os.walk", "ext:os.listdir", "ext:os.scandir", "ext:glob.glob") for s2 in subterms(o)) for o in pr.origins(lp.iter, lf))
+            except AnalysisError:
+                pass
+            if not listed:
+                continue
+            r4.instance(lf, lp, f"for {norm(lp.target)} in {norm(lp.iter)[:50]}")
+            raises = [x for st in lp.body for x in ast.walk(st) if isinstance(x, ast.Raise)]
+            r4.check(not raises, lf, raises[0] if raises else lp, "the loader raises while going through the entries of the ascmhl folder: a manifest that was published by a run killed before its chain entry was written (or any other stray entry) makes every later command abort", construct="raise inside the folder listing loop of the loader")
 
     report.not_decided += [
         "the full crash-point quantifier: reordering of writes by the OS, durability of directory entries, fsync",
